@@ -439,9 +439,54 @@ def run_join(case):
     return case
 
 
+def run_fill(case):
+    """a tensor created EMPTY (Tensor(rank_ids=..), with or without shape) and filled point by point;
+    between two batches the tensor may be queried (getShape / getActive / str), which must not change
+    anything: the twin that is not queried must end up reporting the same"""
+    ft = H.ft()
+
+    def fresh():
+        return ft.Tensor(rank_ids=list(case["ids"]), shape=case["shape"], default=case["dflt"])
+
+    def fill(t, pts):
+        for n, pt in enumerate(pts):
+            ref = t.getRoot().getPayloadRef(*pt)
+            ref <<= 1 + n
+
+    def query(t):
+        t.getShape()
+        t.getShape(authoritative=True)
+        for r in t.ranks:
+            r.getShape(all_ranks=False)
+            for f in r.getFibers():
+                f.getActive()
+                f.getShape(all_ranks=False)
+        str(t)
+
+    t = fresh()
+    impl = {"src": obs_tensor(t)}
+    try:
+        fill(t, case["points1"])
+        if case.get("query"):
+            query(t)
+        fill(t, case["points2"])
+        impl["res"] = obs_tensor(t)
+        twin = fresh()
+        fill(twin, case["points1"])
+        fill(twin, case["points2"])
+        case["side"] = {"query_is_pure": obs_tensor(twin) == impl["res"]}
+    except Exception as e:
+        impl["res"] = {"err": H.err_class(e)}
+        case["implerr"] = H.err_class(e)
+    case["impl"] = impl
+    return case
+
+
 def run_mut(case):
     """a tensor is built, then grown IN PLACE at a point that is absent (getPayloadRef + assignment,
     or Fiber.append at the root); observed before and after"""
+    if case["how"] == "fill":
+        return run_fill(case)
     t = build_base(case)
     impl = {"src": obs_tensor(t)}
     try:
@@ -800,6 +845,18 @@ def _small_scope(tier):
                 if d == 2:      # an absent point inside the extent, and a wider second-rank fiber
                     yield {"prop": PROP, "kind": "mut", "d": d, "t": t, "ids": ids, "shape": sh, "dflt": 0,
                            "how": "ref", "point": [t[0][0], cov[1] + 2]}
+    # tensors created EMPTY and filled in two batches, the second reaching larger coordinates, with
+    # and without queries in between (an empty-created rank has no recorded estimate: it estimates anew
+    # on every call, so the shape follows the data)
+    fills = {1: ([[1], [3]], [[6], [9]]), 2: ([[0, 2], [1, 1]], [[1, 7], [5, 0], [5, 8]]),
+             3: ([[0, 0, 1], [1, 2, 0]], [[1, 2, 6], [4, 0, 0], [4, 5, 9]])}
+    for d in (1, 2, 3):
+        p1, p2 = fills[d]
+        for sh in (None, [12] * d):
+            for q in (False, True):
+                for a, b in ((p1, p2), (p1 + p2, []), ([], p1 + p2), (p1[:1], p1[1:] + p2)):
+                    yield {"prop": PROP, "kind": "mut", "how": "fill", "d": d, "t": [], "ids": IDS[:d], "shape": sh,
+                           "dflt": 0, "points1": a, "points2": b, "query": q}
     # lazy results
     fa = [{"c": [1, 3], "shape": 6, "act": [1, 5], "id": "A"}, {"c": [0, 2, 4], "shape": None, "act": None, "id": None},
           {"c": [2, 3], "shape": 5, "act": None, "id": "A"}, {"c": [], "shape": None, "act": None, "id": "A"},
@@ -995,7 +1052,10 @@ def explain(case, tags, clause):
             return "lazy:project:rank-id-unknown"
         return None
     if kind == "mut":
-        if "src-est" in tags and clause.startswith(("shape@", "active@")):
+        # only ranks that RECORDED an estimate when the tensor was built keep it (the known class);
+        # a rank without recorded estimate (tensor created empty) re-estimates on every query
+        if "src-est" in tags and clause.startswith(("shape@", "active@")) and \
+                ("recorded-estimate@" + clause.split("@")[1]) in tags:
             return "mutate:estimated-shape-stale-after-growth"
         return None
     if kind != "xf":
